@@ -29,7 +29,7 @@ KINDS = [
 ]
 INVALID_ELEMS = [1, {}, {'jsonrpc': '2.0', 'method': 1, 'id': 7}]
 ID_ALPHABET = [1, '1', 0, '', -1, '__absent__', None]
-DISPS = ['sync', 'async', 'async-seq', 'async-wrapped']
+DISPS = ['sync', 'async', 'async-seq', 'async-wrapped', 'sync-custom', 'async-custom']
 
 
 def elem(kind, id):
@@ -95,6 +95,13 @@ def run_case(case, rec):
     rec.transitions += 1
     rec.outcomes[outcome_class(o)] += 1
     shape = 'batch' if isinstance(doc, list) else 'single'
+    if s.uses is not None:
+        # every pluggable piece handed to the constructor must actually be used
+        need = ['json_loader', 'json_decoder'] + (['json_dumper', 'json_encoder', 'response_class'] if o['text'] else [])
+        missing = [k for k in need if not s.uses.get(k)]
+        if missing:
+            rec.violation('C02:%s:configured %s not used by the dispatcher' % (shape, '/'.join(missing)), case,
+                          expected=need, observed=dict(s.uses))
 
     if o['raised'] or o['problem']:
         rec.violation('C02:%s:%s' % (shape, 'raised' if o['raised'] else 'malformed'), case,
